@@ -100,6 +100,123 @@ _BODIES = {
         m_expression->updateOpCodeLength(opPos); }""",
 }
 
+# the same functions after fixes/C09c/01_pattern_grammar.patch (each function: exactly one of the two texts)
+_BODIES_FIXED = {
+    "Argument": """{
+ assert(m_expression != 0);
+ if (m_requireLiterals == false)
+ {
+ Expr();
+ }
+ else if (isCurrentLiteral() == true)
+ {
+ PrimaryExpr();
+ if (tokenIs(XalanUnicode::charComma) == false &&
+ tokenIs(XalanUnicode::charRightParenthesis) == false)
+ {
+ error(XalanMessages::LiteralArgumentIsRequired);
+ }
+ }
+ else
+ {
+ error(XalanMessages::LiteralArgumentIsRequired);
+ }
+}""",
+    "IdKeyPattern": """{
+ assert(m_expression != 0);
+ const int opPos = m_expression->opCodeMapLength();
+ const bool fKey = tokenIs(s_functionKeyString);
+ m_requireLiterals = true;
+ FunctionCall();
+ m_requireLiterals = false;
+ const int argCount = m_expression->getOpCodeMapValue(opPos + 3);
+ if (fKey == true && argCount != 2)
+ {
+ error(
+ XalanMessages::FunctionTakesTwoArguments_1Param,
+ s_functionKeyString);
+ }
+ else if (fKey == false && argCount != 1)
+ {
+ error(
+ XalanMessages::FunctionAcceptsOneArgument_1Param,
+ s_functionIDString);
+ }
+}""",
+    "LocationPathPattern": """{
+ assert(m_xpath != 0);
+ assert(m_expression != 0);
+ const int opPos = m_expression->opCodeMapLength();
+ m_expression->appendOpCode(XPathExpression::eOP_LOCATIONPATHPATTERN);
+ bool fStepRequired = false;
+ bool fHead = false;
+ if(lookahead(XalanUnicode::charLeftParenthesis, 1) == true &&
+ (tokenIs(s_functionIDString) == true ||
+ tokenIs(s_functionKeyString) == true))
+ {
+ IdKeyPattern();
+ fHead = true;
+ if (m_token.empty() == false &&
+ tokenIs(XalanUnicode::charSolidus) == false &&
+ tokenIs(XalanUnicode::charVerticalLine) == false)
+ {
+ error(
+ XalanMessages::UnexpectedTokenFound_1Param,
+ m_token);
+ }
+ if(tokenIs(XalanUnicode::charSolidus) == true && lookahead(XalanUnicode::charSolidus, 1) == true)
+ {
+ const int newOpPos = m_expression->opCodeMapLength();
+ const XPathExpression::OpCodeMapValueVectorType theArgs(1, 4, m_constructionContext->getMemoryManager());
+ m_expression->appendOpCode(XPathExpression::eMATCH_ANY_ANCESTOR_WITH_FUNCTION_CALL,
+ theArgs);
+ m_expression->updateOpCodeLength(newOpPos);
+ nextToken();
+ }
+ }
+ else if(tokenIs(XalanUnicode::charSolidus) == true)
+ {
+ const int newOpPos = m_expression->opCodeMapLength();
+ fHead = true;
+ const XPathExpression::OpCodeMapValueVectorType theArgs(1, 4, m_constructionContext->getMemoryManager());
+ if(lookahead(XalanUnicode::charSolidus, 1) == true)
+ {
+ m_expression->appendOpCode(
+ XPathExpression::eMATCH_ANY_ANCESTOR_WITH_PREDICATE,
+ theArgs);
+ m_expression->appendOpCode(XPathExpression::eNODETYPE_NODE);
+ nextToken();
+ fStepRequired = true;
+ }
+ else
+ {
+ m_expression->appendOpCode(XPathExpression::eFROM_ROOT,
+ theArgs);
+ m_expression->appendOpCode(XPathExpression::eNODETYPE_ROOT);
+ }
+ m_expression->updateOpCodeLength(newOpPos);
+ nextToken();
+ }
+ if (m_token.empty() == false &&
+ tokenIs(XalanUnicode::charVerticalLine) == false)
+ {
+ if (fStepRequired == true &&
+ tokenIs(XalanUnicode::charSolidus) == true)
+ {
+ error(XalanMessages::ExpectedNodeTest);
+ }
+ RelativePathPattern();
+ }
+ else if (fStepRequired == true || fHead == false)
+ {
+ error(XalanMessages::ExpectedNodeTest);
+ }
+ m_expression->appendOpCode(XPathExpression::eENDOP);
+ m_expression->updateOpCodeLength(XPathExpression::eOP_LOCATIONPATHPATTERN,
+ opPos);
+}""",
+}
+
 # the part of initMatchPattern after tokenize()
 _INIT_TAIL = """tokenize(expression); m_expression->appendOpCode(XPathExpression::eOP_MATCHPATTERN); nextToken(); Pattern();
     if (m_token.empty() == false) { error(XalanMessages::ExtraIllegalTokens); } m_expression->appendOpCode(XPathExpression::eENDOP);
@@ -179,6 +296,41 @@ def _dispatch(xp):
     return _DISPATCH
 
 
+# the conditions under which each test function says "match" (coq/PatcScoreDefs.v tester_accepts was written from these)
+_TESTER_GUARDS = {
+    "testComment": "if(XalanNode::COMMENT_NODE==nodeType)",
+    "testText": "if(XalanNode::TEXT_NODE==nodeType&&shouldStripSourceNode(static_cast<const XalanText&>(context))==false)",
+    "testPI": "if(XalanNode::PROCESSING_INSTRUCTION_NODE==nodeType)",
+    "testPIName": "if(XalanNode::PROCESSING_INSTRUCTION_NODE==nodeType&&context.getNodeName()==*m_targetLocalName)",
+    "testNode": "if((nodeType!=XalanNode::TEXT_NODE&&nodeType!=XalanNode::CDATA_SECTION_NODE)||shouldStripSourceNode(static_cast<const XalanText&>(context))==false)",
+    "testRoot": "if(XalanNode::DOCUMENT_NODE==nodeType||XalanNode::DOCUMENT_FRAGMENT_NODE==nodeType)",
+    "testAttributeNCName": "if(XalanNode::ATTRIBUTE_NODE!=nodeType||isNamespaceDeclaration(context)==true||matchLocalName(context)==false)",
+    "testAttributeQName": "if(XalanNode::ATTRIBUTE_NODE!=nodeType||isNamespaceDeclaration(context)==true||matchLocalNameAndNamespaceURI(context)==false)",
+    "testAttributeNamespaceOnly": "if(XalanNode::ATTRIBUTE_NODE!=nodeType||isNamespaceDeclaration(context)==true||matchNamespaceURI(context)==false)",
+    "testAttributeTotallyWild": "if(XalanNode::ATTRIBUTE_NODE!=nodeType||isNamespaceDeclaration(context)==true)",
+    "testElementNCName": "if(XalanNode::ELEMENT_NODE!=nodeType||matchLocalName(context)==false)",
+    "testElementQName": "if(XalanNode::ELEMENT_NODE!=nodeType||matchLocalNameAndNamespaceURI(context)==false)",
+    "testElementNamespaceOnly": "if(XalanNode::ELEMENT_NODE!=nodeType||matchNamespaceURI(context)==false)",
+    "testElementTotallyWild": "if(XalanNode::ELEMENT_NODE!=nodeType)",
+}
+_MATCHERS = {
+    "matchLocalName": "{assert(m_targetLocalName!=0);return context.getNamespaceURI().empty()==true&&DOMServices::getLocalNameOfNode(context)==*m_targetLocalName;}",
+    "matchNamespaceURI": "{assert(m_targetNamespace!=0);return context.getNamespaceURI()==*m_targetNamespace;}",
+    "matchLocalNameAndNamespaceURI": "{assert(m_targetNamespace!=0&&m_targetLocalName!=0);return DOMServices::getLocalNameOfNode(context)==*m_targetLocalName&&context.getNamespaceURI()==*m_targetNamespace;}",
+}
+
+
+def _tester_guards(xp):
+    for name, guard in _TESTER_GUARDS.items():
+        body = _squeeze(function_body(xp, r"XPath::NodeTester::%s\s*\(\s*const\s+XalanNode\s*&[^)]*\)\s*const\s*\{" % name, "NodeTester::" + name))
+        if guard not in body or body.count("if(") != 1:
+            raise AnchorError("NodeTester::%s: its one condition is not the one the score model was written from" % name)
+    for name, text in _MATCHERS.items():
+        body = _squeeze(function_body(xp, r"XPath::NodeTester::%s\s*\(\s*const\s+XalanNode\s*&\s*context\s*\)\s*const\s*\{" % name, "NodeTester::" + name))
+        if body != text:
+            raise AnchorError("NodeTester::%s is not the comparison the score model was written from" % name)
+
+
 def _target_data(xp):
     body = _squeeze(function_body(xp, r"\nXPath::getTargetData\s*\([^)]*\)\s*const\s*\{", "XPath::getTargetData"))
     S = lambda s: "score=%s;" % s
@@ -210,10 +362,15 @@ def gen_patc():
     cpp = strip_comments(read(PI_CPP))
     xp = strip_comments(read(XP_CPP))
     hpp = strip_comments(read(XP_HPP))
+    fixed = {}
     for name, text in _BODIES.items():
         got = _body(cpp, name)
-        if got != _squeeze(text):
-            raise AnchorError("XPathProcessorImpl::%s is not the text the pattern-compiler model was written from" % name)
+        if got == _squeeze(text):
+            fixed[name] = False
+        elif name in _BODIES_FIXED and got == _squeeze(strip_comments(_BODIES_FIXED[name])):
+            fixed[name] = True
+        else:
+            raise AnchorError("XPathProcessorImpl::%s is not the text the pattern-compiler model was written from (neither shape)" % name)
     init = _squeeze(function_body(cpp, r"\nXPathProcessorImpl::initMatchPattern\s*\([^)]*\)\s*\{", "XPathProcessorImpl::initMatchPattern"))
     if _squeeze(_INIT_TAIL) not in init:
         raise AnchorError("XPathProcessorImpl::initMatchPattern is not tokenize; eOP_MATCHPATTERN; nextToken; Pattern; ExtraIllegalTokens; eENDOP")
@@ -230,7 +387,7 @@ def gen_patc():
             raise AnchorError("XPathProcessorImpl::%s not found" % nm)
         kws.append((short, nm, ps[nm]))
     # op codes appended by the two compiling bodies, in source order
-    ops_lpp = re.findall(r"XPathExpression::(e[A-Z][A-Z_]*)\b", _BODIES["LocationPathPattern"])
+    ops_lpp = re.findall(r"XPathExpression::(e[A-Z][A-Z_]*)\b", (_BODIES_FIXED if fixed["LocationPathPattern"] else _BODIES)["LocationPathPattern"])
     ops_step = re.findall(r"XPathExpression::(e[A-Z][A-Z_]*)\b", _BODIES["AbbreviatedNodeTestStep"])
     # scores
     m = need(r"enum\s+eMatchScore\s*\{([^}]*)\}", hpp, "XPath::eMatchScore")
@@ -238,6 +395,7 @@ def gen_patc():
     if enum != SCORES:
         raise AnchorError("XPath::eMatchScore is not %r but %r" % (SCORES, enum))
     testers = _tester_scores(xp)
+    _tester_guards(xp)
     disp = _dispatch(xp)
     known = dict(testers)
     for f in TESTERS:
@@ -251,7 +409,11 @@ def gen_patc():
          "From Coq Require Import List NArith String.", "Import ListNotations.", "Open Scope string_scope.", ""]
     for short, nm, units in kws:
         L.append("Definition gen_patc_kw_%s : list N := %s.   (* XPathProcessorImpl::%s *)" % (short, _nl(units), nm))
-    L += ["(* the compiling functions have the text the model was written from (whole bodies compared) *)",
+    L += ["(* which shape the three functions touched by fixes/C09c/01_pattern_grammar.patch have *)",
+          "Definition gen_patc_fix_args : bool := %s.    (* Argument(): a required literal is compiled by PrimaryExpr() and must be followed by ',' or ')' *)" % _b(fixed["Argument"]),
+          "Definition gen_patc_fix_count : bool := %s.   (* IdKeyPattern(): id takes one argument, key two *)" % _b(fixed["IdKeyPattern"]),
+          "Definition gen_patc_fix_lpp : bool := %s.     (* LocationPathPattern(): no empty alternative, no '///', '/' or '//' between an id()/key() head and a step *)" % _b(fixed["LocationPathPattern"]),
+          "(* the compiling functions have the text the model was written from (whole bodies compared) *)",
           "Definition gen_patc_bodies_matched : list string := %s." % strs(sorted(_BODIES)),
           "Definition gen_patc_lpp_ops : list string := %s." % strs(ops_lpp),
           "Definition gen_patc_step_ops : list string := %s." % strs(ops_step),
@@ -271,7 +433,7 @@ def gen_patc():
           "   name tests NodeTest / NSWild / QName, more than one step or a predicate Other *)",
           'Definition gen_patc_target_data_fp : string := "%s".' % td_fp,
           ""]
-    facts = {"keywords": {s: "".join(map(chr, u)) for s, _, u in kws}, "testers": dict(testers)}
+    facts = {"fix_args": fixed["Argument"], "fix_count": fixed["IdKeyPattern"], "fix_lpp": fixed["LocationPathPattern"], "keywords": {s: "".join(map(chr, u)) for s, _, u in kws}, "testers": dict(testers)}
     return "\n".join(L), facts
 
 
